@@ -10,6 +10,7 @@ mod engine;
 mod entropy;
 mod forge;
 mod gen;
+mod history;
 mod num;
 mod plan;
 mod prng;
